@@ -120,6 +120,8 @@ class ConcRunner:
                 kw["max_attempts"] = o["max_att"]
             if o.get("start") is not None:
                 kw["start"] = from_loc(*o["start"])
+            if o.get("skip"):
+                kw["skip_missing"] = True
         with warnings.catch_warnings():
             warnings.simplefilter("ignore")
             job = getattr(self.sched, call)(timing, cb, **kw)
@@ -130,6 +132,8 @@ class ConcRunner:
         self.created.append(job)
         self.key_of[id(job)] = key
         self.cells.append(cell)
+        # (reading the due time takes the job's lock = a point where other controlled threads may run: only now)
+        self.stable.append((id(job), inst_of(job.datetime)))
         return key
 
     # ---------------------------------------------------------------- user threads
@@ -164,6 +168,17 @@ class ConcRunner:
                         rec["result"] = ("s*", list(r))          # keys are resolved after the run
                     elif k == "jobs":
                         rec["result"] = ("s*", list(self.sched.jobs))
+                    elif k == "due":
+                        # another thread reads the due time a job reports (datetime, and timedelta to a fixed instant)
+                        job = self.created[o["key"]]
+                        seen = []
+                        for _rep in range(o.get("reps", 1)):
+                            d = inst_of(job.datetime)
+                            td = job.timedelta(from_loc(CLOCK.instant + (self.scn.get("tz") or 0), self.scn.get("tz")))
+                            seen.append(d)
+                            seen.append(CLOCK.instant + round(td.total_seconds() * 1e6))
+                            ctrl.yield_point("reader", o["key"])     # the other threads get a turn between two reads
+                        rec["result"] = ("d", sorted(set(seen)))
                     elif k == "str":
                         text = str(self.sched)
                         n = int(text.split("#jobs=")[1].split("\n")[0])
@@ -206,6 +221,7 @@ class ConcRunner:
                                n_threads=scn.get("n_threads", 1), logger=self.logger)
         # observe the batch each exec_jobs call selects (argument of the private __exec_jobs)
         self.selected = {}
+        self.stable = []           # (id(job), due instant) at creation and after every completed rescheduling
         orig_exec = self.sched._Scheduler__exec_jobs
 
         def spy_exec(jobs, ref_dt):
@@ -215,6 +231,21 @@ class ConcRunner:
             return orig_exec(jobs, ref_dt)
 
         self.sched._Scheduler__exec_jobs = spy_exec
+        # ground truth for concurrent readers: the instant every JobTimer holds at the END of each calc_next_exec,
+        # taken under the timer's own (re-entrant) lock, i.e. never a half-done value
+        import scheduler.base.job_timer as _bt
+        self._orig_calc = _bt.JobTimer.__dict__["calc_next_exec"]
+        runner_ = self
+
+        def calc_next_exec(timer, *a, **k):
+            with timer._JobTimer__lock:
+                ret = runner_._orig_calc(timer, *a, **k)
+                runner_.timer_vals.append((id(timer), inst_of(timer._JobTimer__next_exec)))
+            return ret
+
+        calc_next_exec.__wrapped__ = self._orig_calc
+        self.timer_vals = []
+        _bt.JobTimer.calc_next_exec = calc_next_exec
         # a job this scheduler has never seen (created before the controlled phase)
         self.foreign = Scheduler(tzinfo=tz_of(scn.get("tz"))).cyclic(_dt.timedelta(days=400), lambda: None)
         for b, n in (scn.get("barriers") or {}).items():
@@ -249,12 +280,24 @@ class ConcRunner:
             if mon:
                 self._remove_line_preemption()
             coop.set_controller(None)
+            _bt.JobTimer.calc_next_exec = self._orig_calc
         for rec in self.records:
             if rec.get("result", ("",))[0] == "s*":
                 rec["result"] = ("s", sorted(self.key_of.get(id(j), 10**6) for j in rec["result"][1]))
         out["selected"] = {str(e): sorted(self.key_of.get(id(j), 10**6) for j in js) for e, js in self.selected.items()}
         out["created_by_exec"] = {k: c.get("created_by_exec") for k, c in enumerate(self.cells)}
         out["init"] = init
+        stable = {}
+        for (jid, due) in self.stable:
+            stable.setdefault(self.key_of.get(jid, -1), set()).add(due)
+        timer_owner = {}
+        for k, j in enumerate(self.created):
+            for t in getattr(j, "_BaseJob__timers", []):
+                timer_owner[id(t)] = k
+        for (tid_, val) in self.timer_vals:
+            if tid_ in timer_owner:
+                stable.setdefault(timer_owner[tid_], set()).add(val)
+        out["stable_dues"] = {k: sorted(v) for k, v in stable.items()}
         out["records"] = self.records
         out["invocations"] = self.invocations
         out["schedule"] = list(ctrl.schedule)
@@ -296,6 +339,7 @@ class ConcRunner:
                            (bt.JobTimer, ("calc_next_exec",))):
             for name in names:
                 f = cls.__dict__.get(name)
+                f = getattr(f, "__wrapped__", f)
                 if f is not None and hasattr(f, "__code__"):
                     codes.append(f.__code__)
         for name in ("has_attempts_remaining", "attempts", "failed_attempts"):
